@@ -30,7 +30,7 @@ LastOf(s) == s[Len(s)]
 WholeVec(pos, res) ==
     [i \in 1..(LastOf(pos) \div res + 1) |-> IF \E j \in 1..Len(pos) : pos[j] \div res = i - 1 THEN 1 ELSE 0]
 BitSeq(m, res, b, rev) ==
-    LET s == V!BlurImpl(WholeVec(m.pos, res), b) IN IF rev THEN Reverse(s) ELSE s
+    LET s == V!BlurFast(WholeVec(m.pos, res), b) IN IF rev THEN Reverse(s) ELSE s
 
 Ones(s) == Cardinality({i \in 1..Len(s) : s[i] = 1})
 \* correlate(reference, query, mode='valid') normalised by (correlate(reference, ones) + sum(query)) / 2
@@ -204,4 +204,93 @@ PlantedLemma(ref, a, b, res, bl) ==
           /\ xs[t].n = 2 * Ones(BitSeq(q, res, bl, FALSE))
           /\ xs[t].d = xs[t].n
           /\ \A kk \in 1..Len(xs) : Le(xs[kk], xs[t])
+
+-----------------------------------------------------------------------------
+(***************************************************************************)
+(* InitialAlignment.refine (optical_map.py:197-217): the secondary         *)
+(* correlation around one selected seed.  Same variables, own pc labels:   *)
+(*   RSequences / RWindowShort / RCorrelate / RLocalMaxima / RHeight /     *)
+(*   RProminence / KeepTop (the ten highest)                               *)
+(* inp additionally has  peak (bp position of the seed), margin, pt        *)
+(* (peakHeightThreshold, an integer here) and pcount = 10 (the constant    *)
+(* the code passes).  The samples are RAW counts C(k) of bins set in both  *)
+(* the query vector and the window of the reference vector - integers,     *)
+(* kept as [n |-> C, d |-> 1] so that the comparison operators are shared. *)
+(* The reference window is cut by vectorisePositions(start, end) (VecFun). *)
+(***************************************************************************)
+WinSeq(m, res, b, start, end) == V!BlurFast(V!VecFun([pos |-> m.pos, res |-> res, start |-> start, end |-> end]), b)
+Counts(rsq, qsq) ==
+    LET QS == {i \in 1..Len(qsq) : qsq[i] = 1}
+    IN [kk \in 1..(Len(rsq) - Len(qsq) + 1) |-> [n |-> Cardinality({i \in QS : rsq[kk + i - 1] = 1}), d |-> 1]]
+RefStart == inp.peak - inp.margin
+RefEnd == inp.peak + inp.qry.len + inp.margin
+
+\* scipy _peak_prominences (wlen = None): walk left and right while the samples do not exceed the peak, take the
+\* lowest sample on each side; prominence = peak - the higher of the two
+LeftStop(xx, i) == CHOOSE a \in 1..i : (\A j \in a..i : xx[j].n <= xx[i].n) /\ (a = 1 \/ xx[a - 1].n > xx[i].n)
+RightStop(xx, i) == CHOOSE b \in i..Len(xx) : (\A j \in i..b : xx[j].n <= xx[i].n) /\ (b = Len(xx) \/ xx[b + 1].n > xx[i].n)
+MinOver(xx, a, b) == CHOOSE v \in {xx[j].n : j \in a..b} : \A j \in a..b : v <= xx[j].n
+Prominence(xx, i) ==
+    LET lm == MinOver(xx, LeftStop(xx, i), i)
+        rm == MinOver(xx, i, RightStop(xx, i))
+    IN xx[i].n - (IF lm > rm THEN lm ELSE rm)
+
+RStartWith(in) ==
+    /\ inp = in /\ rs = <<>> /\ qs = <<>> /\ x = <<>> /\ cand = {} /\ done = {} /\ peaks = {} /\ empty = FALSE
+    /\ pc = "rstart"
+RSequences ==
+    /\ pc = "rstart"
+    /\ qs' = BitSeq(inp.qry, inp.res, inp.blur, inp.rev)
+    /\ rs' = WinSeq(inp.ref, inp.res, inp.blur, RefStart, RefEnd)
+    /\ pc' = "rseq" /\ UNCHANGED <<inp, x, cand, done, peaks, empty>>
+\* a window shorter than the query vector (a seed next to the end of the labelled part): scipy then correlates with the
+\* arguments exchanged, an empty window raises - not modelled, the run of the machine ends here (named situation)
+RWindowShort ==
+    /\ pc = "rseq" /\ Len(rs) < Len(qs)
+    /\ pc' = "outside" /\ UNCHANGED <<inp, rs, qs, x, cand, done, peaks, empty>>
+RCorrelate ==
+    /\ pc = "rseq" /\ Len(rs) >= Len(qs)
+    /\ x' = Counts(rs, qs) /\ pc' = "rcorr" /\ UNCHANGED <<inp, rs, qs, cand, done, peaks, empty>>
+RLocalMaxima ==
+    /\ pc = "rcorr"
+    /\ \E N \in SUBSET FlatMaxima(x) :
+          /\ LegalNoise(x, N) /\ Cardinality(N) <= Cardinality(Plateaus(x)) + 1
+          /\ cand' = StrictMaxima(x) \cup N
+    /\ pc' = "rheight" /\ UNCHANGED <<inp, rs, qs, x, done, peaks, empty>>
+\* height >= peakHeightThreshold; the FFT returns the counts with an error in the last bits, so a count that EQUALS the
+\* threshold passes or fails
+RHeight ==
+    /\ pc = "rheight"
+    /\ \E keepTies \in SUBSET {i \in cand : x[i].n = inp.pt} : cand' = {i \in cand : x[i].n > inp.pt} \cup keepTies
+    /\ pc' = "rprom" /\ UNCHANGED <<inp, rs, qs, x, done, peaks, empty>>
+\* prominence >= 0.05 * max(correlation), i.e. 20 * prominence >= max; equality either way
+RProminence ==
+    /\ pc = "rprom"
+    /\ LET mx == MaxSample(x).n IN
+         \E keepTies \in SUBSET {i \in cand : 20 * Prominence(x, i) = mx} :
+             cand' = {i \in cand : 20 * Prominence(x, i) > mx} \cup keepTies
+    /\ pc' = "keep" /\ UNCHANGED <<inp, rs, qs, x, done, peaks, empty>>
+RefineNext == RSequences \/ RWindowShort \/ RCorrelate \/ RLocalMaxima \/ RHeight \/ RProminence \/ KeepTop
+\* where a refined peak lies on the reference: the centre of its bin, counted from the start of the window
+RefinedPosition(i) == BinCentre(i - 1, inp.res) + RefStart
+
+\* what AlignCore relies on, and the refinement half of C06
+RContract_Failed(in, xx, P) ==
+       (IF Cardinality(P) <= 10 THEN {} ELSE {"more_than_ten_refined_peaks"})
+  \cup (IF \A i \in P : i \in 1..Len(xx) /\ IsLocalMaxNonStrict(xx, i) THEN {} ELSE {"refined_peak_is_not_a_local_maximum"})
+  \cup (IF \A i \in P : i \in 1..Len(xx) => xx[i].n >= in.pt THEN {} ELSE {"refined_peak_below_the_height_threshold"})
+  \cup (IF \A i \in P : i \in 1..Len(xx) => 20 * Prominence(xx, i) >= MaxSample(xx).n THEN {}
+        ELSE {"refined_peak_below_the_prominence_threshold"})
+Inv_RContract == pc = "done" /\ "peak" \in DOMAIN inp => RContract_Failed(inp, x, peaks) = {}
+\* no sample exceeds the number of bins set in the query vector, and it is reached exactly where every set bin of the
+\* query is set in the window (an exact locus)
+Inv_RCount == pc \in {"rcorr", "rheight", "rprom"} =>
+    \A kk \in 1..Len(x) : x[kk].n <= Ones(qs) /\ (x[kk].n = Ones(qs) <=> \A i \in 1..Len(qs) : qs[i] = 1 => rs[kk + i - 1] = 1)
+\* C06, refinement half: a unique exact locus that is a strict interior maximum and reaches the threshold is always a
+\* refined peak (it is the highest sample: it survives the cut to ten; its prominence is at least 1 >= max / 20 when max <= 20 ...
+\* in general the prominence of the global strict maximum is max - (the higher of the two side minima) )
+Inv_RExactLocus == pc = "done" /\ "peak" \in DOMAIN inp =>
+    \A i \in 2..(Len(x) - 1) :
+        (/\ x[i].n = Ones(qs) /\ x[i].n > inp.pt /\ \A j \in 1..Len(x) : j # i => x[j].n < x[i].n
+         /\ 20 * Prominence(x, i) > x[i].n) => i \in peaks
 =============================================================================
